@@ -112,6 +112,12 @@ StreamWithFault(recs, R, B, f, Restart) ==
     IF sent = << >> THEN [out |-> full, err |-> FALSE]                \* nothing had left: starting over is invisible
     ELSE IF Restart THEN [out |-> sent \o full, err |-> FALSE]
     ELSE [out |-> sent, err |-> TRUE]
+\* an unlimited list (a count alike) whose iterator fails after f records: the worker starts the partition over; the code drops
+\* the partial result first (Reset)
+ListWithFault(recs, R, f, Reset) ==
+    LET part == ScanPrefix(ScanInit, recs, R, f).out
+        full == WorkerRun(recs, R, 0, FALSE, 0, {}).out IN
+    IF Reset THEN full ELSE part \o full
 NoDup(s) == \A i, j \in 1..Len(s) : i # j => s[i].k # s[j].k
 
 -----------------------------------------------------------------------------
